@@ -214,7 +214,17 @@ def rule_eq(rep, d):
             try:
                 table = norm.truth_table(d, fn, classify, 2)
             except norm.Undecided as e:
-                rep.inconclusive("C11.eq", label, "truth table over (first storage equal, second storage equal)", where=where, detail=str(e))
+                # an element-wise std::equal over (first1, last1, first2) compares only the first range's length: sequences of different size
+                # compare equal on their common prefix (or the second one is read past its end) unless the sizes are compared as well
+                eq3 = [n_ for n_ in ir.walk_expr(ir.body(fn)) if n_.get("kind") == "CallExpr" and ir.sx(n_)[0] == "call" and ir.show(ir.sx(n_)[1]).split("::")[-1] == "equal" and len(ir.sx(n_)) == 5]
+                sized = any(x[0] == "call" and x[1][0] == "mem" and x[1][2] == "size" for n_ in ir.walk_expr(ir.body(fn)) if n_.get("kind") in ("BinaryOperator", "CXXOperatorCallExpr")
+                            for x in ir.subterms(ir.sx(n_)) if isinstance(x, tuple))
+                if eq3 and not sized:
+                    rep.violates("C11.eq", label, "compares both storages", where=d.where(eq3[0]),
+                                 detail="std::equal(first1, last1, first2) ignores the length of the second sequence and the sizes are not compared: a longer/shorter "
+                                        "operand compares equal on the common prefix or is read past its end")
+                else:
+                    rep.inconclusive("C11.eq", label, "truth table over (first storage equal, second storage equal)", where=where, detail=str(e))
                 continue
             is_eq = fn["name"] == "operator=="
             wrong = [asg for asg, v in table.items() if v != (all(asg) == is_eq)]
